@@ -422,11 +422,11 @@ Proof. destruct (diff_partition a b) as [_ [_ [C _]]]. cbv zeta in C. now rewrit
 Lemma gseteqb_refl g : gseteqb g g = true.
 Proof. apply gseteqb_spec. intros t; tauto. Qed.
 
-Theorem spec_ok_model c : kf c = 0%N -> spec_ok c (model_obs c) = true.
+Theorem spec_ok_model c : spec_ok c (model_obs c) = true.
 Proof.
-  intros _. unfold spec_ok, model_obs, model_obs_with.
+  unfold spec_ok, model_obs, model_obs_with.
   set (g1 := c_g1 c). set (g2 := c_g2 c).
-  unfold spec_verdicts, spec_canon, spec_diff, spec_skolem. cbn [o_iso o_toiso o_caneq o_alt1 o_alt2 o_cg1 o_cg2 o_both o_first o_second o_sk o_skv o_undet].
+  unfold spec_verdicts, spec_canon, spec_diff, spec_skolem. cbn [o_iso o_toiso o_caneq o_alt1 o_alt2 o_cg1 o_cg2 o_both o_first o_second o_sk o_skv].
   fold g1 g2. rewrite !eqb_reflx, iso_dec_refl. cbn [andb].
   set (cg2 := if iso_dec g1 g2 then g1 else shift_g (N.succ (maxblank g1)) g2).
   destruct (diff_partition g1 cg2) as [A [B _]]. cbv zeta in A, B.
